@@ -116,6 +116,41 @@ static std::string mk_setting(Rng &g, int mi) {
   }
 }
 
+// Cost parameters in the range real deployments use: every method at the cost crypt_gensalt picks by default (count 0),
+// and hand-spelt costs well above the everyday ranges of mk_setting.  A call then takes 10 ms .. 1 s, so this is drawn
+// rarely, and never for the thread engine (whose instrumentation multiplies the cost).
+static bool g_allow_heavy = false;
+static std::string heavy_setting(Rng &g, int *mi_out) {
+  static const int his[] = {0, 1, 2, 3, 7, 8, 9, 9, 10, 13};
+  int mi = his[g.below(10)]; *mi_out = mi;
+  if (g.chance(1, 3)) {   // what crypt_gensalt (prefix, 0, ...) produces
+    if (g.chance(1, 2)) { mi = (int)g.below(16); *mi_out = mi; }
+    return ref_gensalt(PREFIX[mi], 0, rnd_bytes(g, 16 + g.below(17)));
+  }
+  switch (mi) {
+    case 0: case 1: {
+      char buf[256]; std::string salt = rnd_bytes(g, (size_t)g.range(8, 32));
+      unsigned p = g.chance(1, 3) ? (unsigned)g.range(2, 4) : 1, t = g.chance(1, 3) ? (unsigned)g.range(1, 3) : 0;
+      if (!gen_yescrypt_setting(g.chance(1, 4) ? 0x001 : 0x0b6, 1ull << g.range(13, p > 1 || t ? 13 : 15), 8, p, t, (const unsigned char *)salt.data(), salt.size(), buf, sizeof buf)) return std::string();
+      std::string s = buf; if (mi == 1) s = "$gy$" + s.substr(3);
+      return s + "$";
+    }
+    case 2: return std::string("$7$") + B64[g.range(11, 14)] + enc30(8) + enc30(g.chance(1, 3) ? (unsigned)g.range(2, 4) : 1) + b64salt(g, (size_t)g.range(4, 20)) + "$";
+    case 3: { static const int bm[] = {3, 4, 5, 6}; int b = bm[g.below(4)]; *mi_out = b; return ref_gensalt(PREFIX[b], (unsigned long)g.range(8, 9), rnd_bytes(g, 16)); }
+    case 7: case 8: return std::string(PREFIX[mi]) + "rounds=" + std::to_string(g.chance(1, 3) ? g.range(4990, 5010) : g.range(12001, 120000)) + "$" + b64salt(g, (size_t)g.range(1, 16)) + "$";
+    case 9: {
+      static const long edge[] = {8192, 16384, 32768, 65536, 131072, 196608, 262144};
+      long it = g.chance(1, 2) ? edge[g.below(7)] + g.range(-2, 2) : g.range(6001, 300000);
+      return "$sha1$" + std::to_string(it) + "$" + b64salt(g, (size_t)g.range(1, 64)) + "$";
+    }
+    case 10: return "$md5,rounds=" + std::to_string(g.range(9001, 60000)) + "$" + b64salt(g, (size_t)g.range(1, 16)) + "$";
+    default: {
+      unsigned v = (unsigned)g.range(30001, 600000); std::string s = "_"; for (int i = 0; i < 4; i++) { s += B64[v & 63]; v >>= 6; }
+      return s + b64salt(g, 4);
+    }
+  }
+}
+
 static Pool &pool_for(uint64_t poolseed) {
   static std::map<uint64_t, Pool> cache;
   auto it = cache.find(poolseed);
@@ -176,6 +211,18 @@ static bool cheap_enough(const std::string &s, const std::string &orig) {
   return true;
 }
 
+// A yescrypt-family setting whose working region is 2^log2mib MiB (128 * r * N bytes).  Whether the simulated machine
+// grants such a mapping is an environment choice of the plan (env.map_limit_mib): refused, the call costs nothing and
+// still runs every line that decides by region size; granted, it is real work (64 MiB and up).
+static std::string big_setting(Rng &g, int mi, int log2mib) {
+  bool r32 = g.chance(1, 2); unsigned r = r32 ? 32 : 8; int nlog = log2mib + 20 - (r32 ? 12 : 10);
+  if (mi == 2) return std::string("$7$") + B64[nlog] + enc30(r) + enc30(1) + b64salt(g, 8) + "$";
+  char buf[256]; std::string salt = rnd_bytes(g, 16);
+  if (!gen_yescrypt_setting(0x0b6, 1ull << nlog, r, 1, 0, (const unsigned char *)salt.data(), salt.size(), buf, sizeof buf)) return std::string();
+  std::string s = buf; if (mi == 1) s = "$gy$" + s.substr(3);
+  return s + "$";
+}
+
 // ---------------------------------------------------------------- request drawing
 struct Req { Bytes ph, st; std::string m, cls; bool mustfail = false; };
 
@@ -197,12 +244,16 @@ static Req valid_req(Rng &g, Pool &p, bool secret, int maxcost) {
     std::string s = mk_setting(g, mi);
     if (!s.empty()) { r.st = Bytes(s); r.m = METHODS[mi]; r.cls = "valid-fresh"; }
   }
+  if (g_allow_heavy && maxcost >= 2 && g.chance(1, 60)) {
+    int mi = 0; std::string s = heavy_setting(g, &mi);
+    if (!s.empty()) { r.st = Bytes(s); r.m = METHODS[mi]; r.cls = "valid-heavy"; }
+  }
   if (!secret && g.chance(1, 12)) r.ph = Bytes(mk_phrase(g, (size_t)g.range(0, 511), (int)g.below(2)));
   return r;
 }
 static Req invalid_req(Rng &g, Pool &p, bool secret) {
   Req r = valid_req(g, p, secret, 3);
-  switch (g.below(15)) {
+  switch (g.below(16)) {
     case 0: r.ph = Bytes::Null(); r.cls = "null-phrase"; r.mustfail = true; break;
     case 1: r.st = Bytes::Null(); r.cls = "null-setting"; r.mustfail = true; break;
     case 2: r.ph = Bytes(mk_phrase(g, (size_t)g.range(512, 700), (int)g.below(2))); r.cls = "long-phrase"; r.mustfail = true; break;
@@ -278,6 +329,11 @@ static Req invalid_req(Rng &g, Pool &p, bool secret) {
       if (g.chance(1, 3)) s += "$";
       if (g.chance(1, 4)) s += b64salt(g, 43);
       r.st = Bytes(s); r.cls = "long-setting"; break;
+    }
+    case 12: {  // 64 MiB .. 512 GiB of working memory: normally more than the simulated machine grants in one mapping
+      int mi = (int)g.below(3); std::string s = big_setting(g, mi, (int)g.range(6, g.chance(1, 2) ? 9 : 19));
+      if (!s.empty()) { r.st = Bytes(s); r.m = METHODS[mi]; r.cls = "big-memory"; }
+      break;
     }
     case 7: {  // truncation of a valid setting (may still be valid: the reference decides)
       std::string s = r.st.b; if (!s.empty()) s.resize(g.below(s.size())); r.st = Bytes(s); r.cls = "truncated"; break;
@@ -382,10 +438,11 @@ static J gensalt_op(Rng &g, bool allow_static, bool allow_auto, bool cheap_only)
   op["count"] = (long long)count;
   if (allow_auto && g.chance(2, 5)) op["rb"] = J();
   else {
-    // never fewer than 4 bytes for the $1$/$5$/$6$ writers and never an output_size in 3..191:
-    // those regions hit defects F2/F3 that belong to properties this check does not decide (DESIGN 3.5, 6)
-    size_t n = g.chance(1, 6) ? (size_t)g.range(4, 12) : g.chance(1, 5) ? (size_t)g.range(41, 255) : g.chance(1, 8) ? 64 : g.chance(1, 12) ? (size_t)g.range(256, 1200) : (size_t)g.range(16, 40);
+    // never an output_size in 3..191: that region hits defect F2 (an assert, C13's grid; DESIGN 3.5, 6).  Fewer than
+    // 4 bytes (where F3 lives: a salt-less "$6$" for exactly 3) is generated: the result is the same in every context.
+    size_t n = g.chance(1, 9) ? (size_t)g.below(4) : g.chance(1, 6) ? (size_t)g.range(4, 12) : g.chance(1, 5) ? (size_t)g.range(41, 255) : g.chance(1, 8) ? 64 : g.chance(1, 12) ? (size_t)g.range(256, 1200) : (size_t)g.range(16, 40);
     op["rb"] = Bytes(rnd_bytes(g, n)).to_json();
+    if (n > 0 && g.chance(1, 12)) op["nrb"] = (long long)g.below(n + 1);   // the caller offers fewer bytes than the buffer holds (0 included)
   }
   (void)cheap_only;
   return op;
@@ -397,6 +454,7 @@ static J base_plan(const std::string &prop, const char *variant, uint64_t seed, 
   p["property"] = prop; p["variant"] = variant; p["seed"] = (long long)seed; p["tier"] = tier;
   J env = J::obj(); env["fill_seed"] = (long long)(1 + g.below(1u << 30)); env["realloc_move"] = g.chance(2, 3); env["entropy_seed"] = (long long)(seed * 2654435761u + 17);
   { Rng le(seed, "locale"); if (le.chance(1, 8)) env["locale"] = le.chance(1, 2) ? "xx_XX.ISO-8859-1" : "C.UTF-8"; }
+  env["map_limit_mib"] = 48;   // the simulated machine refuses single mappings of 48 MiB and more (16 and 32 MiB shapes still run)
   p["env"] = env;
   p["tasks"] = J::arr();
   return p;
@@ -534,7 +592,7 @@ static J plan_c09(uint64_t seed, const std::string &tier) {
   }
   int extra = (int)g.range(1, 4);
   for (int i = 0; i < extra; i++) {
-    J op = J::obj(); op["k"] = "prim"; int alg = (int)g.below(11); op["alg"] = alg;
+    J op = J::obj(); op["k"] = "prim"; int alg = (int)g.below(12); op["alg"] = alg;
     std::string sec = pool.secrets[g.below(pool.secrets.size())];
     bool keyed = alg == 6 || alg == 7 || alg == 8 || alg == 9 || alg == 10;
     if (keyed && g.chance(2, 3)) {
@@ -604,7 +662,7 @@ static J plan_c14(uint64_t seed, const std::string &tier) {
     } else if (x < 95) {
       op = gensalt_op(g, false, true, true); op["k"] = "gensalt_ra";
       if (g.chance(1, 4)) { op["pf"] = Bytes(std::string(g.chance(1, 2) ? "$9$" : "*0")).to_json(); }
-      if (g.chance(1, 6)) { op["rb"] = Bytes(rnd_bytes(g, 4)).to_json(); op["pf"] = Bytes(std::string("$y$")).to_json(); }   // too few bytes for yescrypt -> EINVAL
+      if (g.chance(1, 6)) { op["rb"] = Bytes(rnd_bytes(g, 4)).to_json(); op["nrb"] = 4; op["pf"] = Bytes(std::string("$y$")).to_json(); }   // too few bytes for yescrypt -> EINVAL
     } else op["k"] = "free_results";
     ops.push(op);
   }
@@ -636,6 +694,7 @@ static J plan_c17(uint64_t seed, const std::string &tier) {
       }
       if (!lastphrase.empty() && g.chance(1, 5)) k = unpack8(phrase_key(g));   // the key crypt(3) derives from a block of an earlier phrase
       op["key"] = k; lastkey = k; skeyed = true;
+      if (!lastblk.empty() && g.chance(1, 6)) { op["keychain"] = (long long)g.range(1, 2); op["keynoise"] = (long long)g.below(256); lastkey.clear(); }   // key := previous output / input
     } else if (x < 45 && skeyed) {
       op["k"] = "encrypt"; std::string b = hex64(g, des_style(g, 3));
       if (!lastblk.empty() && g.chance(1, 3)) { std::string raw; hexdec(lastblk, raw); for (auto &c : raw) c = (char)((c & 1) | (g.below(128) << 1)); b = hexenc(raw); }
@@ -645,6 +704,7 @@ static J plan_c17(uint64_t seed, const std::string &tier) {
       if (g.chance(1, 6)) op["chain"] = 1;   // the block is the previous encrypt's output
     } else if (x < 58) {
       int o = (int)g.below((uint64_t)nobj); op["k"] = "setkey_r"; op["obj"] = o; op["key"] = (!lastkey.empty() && g.chance(1, 2)) ? lastkey : hex64(g, des_style(g, 4)); keyed[(size_t)o] = 1;
+      if (!lastblk.empty() && g.chance(1, 6)) { op["keychain"] = (long long)g.range(1, 2); op["keynoise"] = (long long)g.below(256); }
     } else if (x < 75) {
       int o = (int)g.below((uint64_t)nobj);
       if (!keyed[(size_t)o]) { op["k"] = "setkey_r"; op["obj"] = o; op["key"] = hex64(g, 0); keyed[(size_t)o] = 1; }
@@ -730,6 +790,8 @@ J c15_corpus_item(long idx, long *total) {
       }
       if (mi == 2) { extra.push_back(std::string("$7$") + B64[8] + enc30(4) + enc30(3) + "p3salt$"); extra.push_back(std::string("$7$") + B64[14] + enc30(8) + enc30(2) + "16MiBp2$"); }
       if (mi == 2) settings.push_back(std::string("$7$") + B64[15] + enc30(8) + enc30(1) + "hugepagesalt$");                               // N=2^15 r=8: 32 MiB
+      if (mi <= 2) { Rng gb(64 + (uint64_t)mi, "corpus-big"); std::string b = big_setting(gb, mi, 6); if (!b.empty()) settings.push_back(b); }   // 64 MiB: what crypt_gensalt("$7$", 0) and yescrypt cost 7 ask for
+      if (mi == 0) { Rng gb(128, "corpus-big"); std::string b = big_setting(gb, mi, 7); if (!b.empty()) settings.push_back(b); }               // 128 MiB
       for (size_t si = 0; si < settings.size(); si++) {
         for (int e = 0; e < 5; e++) {
           for (int huge = 0; huge < (si ? 2 : 1); huge++) {
@@ -771,6 +833,7 @@ J c15_corpus_item(long idx, long *total) {
   if (idx < 0 || idx >= (long)items.size()) return J();
   Rng g((uint64_t)idx, "corpusplan");
   J p = base_plan("C15", "asan", (uint64_t)idx, "corpus", g);
+  p["env"]["map_limit_mib"] = 300;
   J t = J::obj(); J objs = J::arr(); { J o = J::obj(); o["align"] = 0; o["init"] = "garbage"; o["gseed"] = 5; objs.push(o); } t["objs"] = objs; t["slots"] = 1;
   J ops = items[(size_t)idx].setup; ops.push(items[(size_t)idx].op);
   t["ops"] = ops; p["tasks"].push(t);
@@ -815,6 +878,18 @@ static J plan_c08(uint64_t seed, const std::string &tier) {
       p["tasks"].a[(size_t)ti]["ops"].push(op);
     }
   }
+  // one plan in 20: two or three tasks each ask for 64 MiB .. 2 GiB (all refused by the simulated machine, so they cost
+  // nothing): code that treats large regions specially - pools them, remembers a refusal - runs in several threads
+  if (g.chance(1, 20)) {
+    int mi = (int)g.below(3), l2 = (int)g.range(6, 11); std::string big = big_setting(g, mi, l2);
+    int calls = (int)g.range(2, 4);
+    if (!big.empty()) for (int c = 0; c < calls; c++) {
+      size_t ti = (size_t)c % p["tasks"].a.size();
+      J op = J::obj(); op["k"] = g.chance(1, 2) ? "crypt_ra" : "crypt_rn"; if (op.str("k") == "crypt_ra") op["slot"] = 0; else op["obj"] = 0;
+      op["ph"] = Bytes(std::string("large-memory")).to_json(); op["st"] = Bytes(g.chance(1, 2) ? big : big_setting(g, mi, (int)g.range(6, 11))).to_json(); op["m"] = METHODS[mi]; op["cls"] = "big-memory"; op["huge_ok"] = g.chance(1, 2);
+      J &ops = p["tasks"].a[ti]["ops"]; ops.a.insert(ops.a.begin() + (long)g.below(ops.a.size() + 1), op);
+    }
+  }
   // some plans hand the very same read-only phrase/setting buffer to several tasks
   if (g.chance(1, 3)) {
     Req r = valid_req(g, pool, false, 2);
@@ -835,6 +910,7 @@ static J plan_c12b(uint64_t seed, const std::string &tier) {
   J p = base_plan("C12", "rng", seed, tier, g);
   int variant = (int)g.below(8);
   p["rng_variant"] = variant;
+  { static const int fb[] = {1000, 1000, 3, 0}; p["fd_base"] = fb[g.below(4)]; }   // 0: the application runs with stdin closed
   J t = J::obj(); t["objs"] = J::arr(); t["slots"] = 0;
   J ops = J::arr();
   int n = (int)g.range(1, g.chance(1, 10) ? 24 : 8), faulty = (int)g.below((uint64_t)n + 1);
@@ -871,6 +947,7 @@ static J plan_c12b(uint64_t seed, const std::string &tier) {
       if (variant & 4) outcomes("sys_getrandom", {"enosys", "eintr", "short:", "eio", "short0", "shortmax", "eagain", "efault"}, 75);
       if (g.chance(1, 2)) outcomes("open", {"enoent", "emfile", "eacces", "eintr", "enfile", "enomem"}, 60);
       else outcomes("read", {"short:", "eio", "eintr", "short:", "short0", "shortmax", "eagain", "ebadf"}, 70);
+      if (g.chance(1, 6)) outcomes("close", {"eintr", "eio"}, 100);
       if (sc.size()) op["script"] = sc;
     }
     ops.push(op);
@@ -961,7 +1038,32 @@ static J plan_c05sweep(uint64_t idx, long *total) {
   return p;
 }
 
+// One plan in 300: a bigger machine (mappings below 300 MiB are granted) and one call that really needs 64, 128 or
+// 256 MiB - with the huge-page attempt granted or refused - appended to the history.
+static J with_big_real(J p, uint64_t seed) {
+  Rng g(seed, "bigreal");
+  if (!g.chance(1, 300) || p["tasks"].a.empty()) return p;
+  J &t = p["tasks"].a[0];
+  int mi = (int)g.below(3), l2 = mi == 2 ? 6 : (g.chance(3, 5) ? 6 : g.chance(3, 4) ? 7 : 8);
+  std::string s = big_setting(g, mi, l2); if (s.empty()) return p;
+  J op = J::obj();
+  if (t.i("slots") >= 1 && g.chance(1, 2)) { op["k"] = "crypt_ra"; op["slot"] = 0; }
+  else if (!t["objs"].a.empty()) { op["k"] = g.chance(1, 2) ? "crypt_r" : "crypt_rn"; op["obj"] = 0; }
+  else return p;
+  op["ph"] = Bytes(std::string("a phrase for a large-memory hash")).to_json(); op["st"] = Bytes(s).to_json(); op["m"] = METHODS[mi]; op["cls"] = "valid-big"; op["huge_ok"] = g.chance(1, 2);
+  size_t at = g.below(t["ops"].a.size() + 1);
+  t["ops"].a.insert(t["ops"].a.begin() + (long)at, op);
+  p["env"]["map_limit_mib"] = 300;
+  return p;
+}
+static J generate_plan_(const std::string &prop, uint64_t seed, const std::string &tier);
 J generate_plan(const std::string &prop, uint64_t seed, const std::string &tier) {
+  J p = generate_plan_(prop, seed, tier);
+  if (prop == "C05" || prop == "C05ft" || prop == "C07" || prop == "C09" || prop == "C14" || prop == "C15") return with_big_real(p, seed);
+  return p;
+}
+static J generate_plan_(const std::string &prop, uint64_t seed, const std::string &tier) {
+  g_allow_heavy = !(prop == "C08" || prop == "C17t" || prop == "C12B" || prop == "C15corpus" || prop == "C05sweep");
   if (prop == "C12B") return plan_c12b(seed, tier);
   if (prop == "C17t") return plan_c17t(seed, tier);
   if (prop == "C05sweep") { long total = 0; J p = plan_c05sweep(seed, &total); if (p.is_null()) { J e = J::obj(); e["total"] = (long long)total; return e; } return p; }
